@@ -352,6 +352,14 @@ def sym_eq(a, b):
         b = b.get()
     if isinstance(a, Str) and isinstance(b, Str):
         return str_eq(a, b)
+    if isinstance(a, Struct) and a.ty == 'Ident' and isinstance(b, Str):
+        return str_eq(deref(a.f['sym']), b)
+    if isinstance(b, Struct) and b.ty == 'Ident' and isinstance(a, Str):
+        return str_eq(deref(b.f['sym']), a)
+    if isinstance(a, Struct) and a.ty in ('PathBuf', 'OsString') and isinstance(b, Str):
+        return str_eq(deref(a.f['s']), b)
+    if isinstance(b, Struct) and b.ty in ('PathBuf', 'OsString') and isinstance(a, Str):
+        return str_eq(deref(b.f['s']), a)
     if isinstance(a, Ch) and isinstance(b, Ch):
         return char_eq(a.c, b.c)
     if isinstance(a, bool) and isinstance(b, bool):
